@@ -1,4 +1,270 @@
-import Cpl.Model.Measures
+import Cpl.Lemmas.Bien
+
+/-!
+# C18 — The BiEntropy family matches Croll's definitions and stays in [0, 1]
+
+`binary_derivative` XORs adjacent digits (length `n - 1`) and `cyclic_binary_derivative` also pairs the
+last digit with the first (length `n`); `bien`, `tbien` and `ktbien` are the weighted means of the Shannon
+entropies of the successive derivatives with weights `2^k`, `log2 (k+2)` and `log2 (k+2)` on cyclic
+derivatives respectively. Their values lie in `[0, 1]`, are unchanged by complementing or reversing the
+string, and `ktbien` is also unchanged by rotating it.
+
+Property theorems only; the proofs of the helper facts are in `Cpl.Lemmas.Bien`. The model
+(`binaryDerivative`, `cyclicBinaryDerivative`, `shannon`, `bienLoop`, `bien`, `tbien`, `ktbien` in
+`Cpl.Model.Measures`) is generic over a record of arithmetic operations; here it is instantiated with the
+real numbers (`Cpl.Bien.realNum`: exact arithmetic, `Real.log`), the driver instantiates the very same
+definitions with `Float`. The distance between the real value and the floating-point value is outside
+this file.
+
+The claim's quantifier is: binary strings (cells 0/1) of length `≥ 2`. The theorems of sections 5 and 6
+carry these two hypotheses to match the claim, although the proofs show that the invariances need neither
+(the model's `bxor` satisfies `bxor (1-a) (1-b) = bxor a b` on all integers) and the range does not need
+the length (for `n < 2` the sums are empty and the real-valued model returns `0 / 0 = 0`, where Python
+raises `ZeroDivisionError`). The hypothesis-free versions are the lemmas `wmean_*` of `Cpl.Lemmas.Bien`.
+-/
+
 namespace Cpl.C18
-theorem placeholder : True := trivial
+open Cpl Finset
+open Cpl.Bien (realNum)
+
+/-- Binary strings: every cell is `0` or `1`. -/
+def Bin (s : List Int) : Prop := ∀ x ∈ s, x = 0 ∨ x = 1
+
+/-- The complement of a binary string: every digit `x` replaced by `1 - x`. -/
+def compl (s : List Int) : List Int := s.map (1 - ·)
+
+/-! ## 1. The two derivatives (exact) -/
+
+/-- `binary_derivative` has length `n - 1` and its `i`-th digit is the XOR of digits `i` and `i + 1`. -/
+theorem binaryDerivative_spec (s : List Int) :
+    (binaryDerivative s).length = s.length - 1 ∧
+    ∀ i (h : i + 1 < s.length), (binaryDerivative s)[i]? = some (bxor s[i] s[i + 1]) :=
+  ⟨Bien.bd_length s, fun i h => Bien.bd_getElem? s i h⟩
+
+/-- `cyclic_binary_derivative` has length `n` and its `i`-th digit is the XOR of digits `i` and `(i + 1) mod n`:
+    the last digit is paired with the first. -/
+theorem cyclic_spec (s : List Int) :
+    (cyclicBinaryDerivative s).length = s.length ∧
+    ∀ i (h : i < s.length), (cyclicBinaryDerivative s)[i]? =
+      some (bxor s[i] (s[(i + 1) % s.length]'(Nat.mod_lt _ (by omega)))) :=
+  ⟨Bien.cbd_length s, fun i h => Bien.cbd_getElem? s i h⟩
+
+/-- The cyclic derivative is the plain derivative followed by the XOR of the last and the first digit. -/
+theorem cyclic_eq_snoc (s : List Int) (h : s ≠ []) :
+    cyclicBinaryDerivative s = binaryDerivative s ++ [bxor (s.getLast h) (s.head h)] := Bien.cbd_eq s h
+
+/-- On binary digits the model's `bxor` is exclusive or: addition modulo 2. -/
+theorem bxor_binary {a b : Int} (ha : a = 0 ∨ a = 1) (hb : b = 0 ∨ b = 1) : bxor a b = (a + b) % 2 :=
+  Bien.bxor_bin ha hb
+
+/-- The derivative of a binary string is binary. -/
+theorem deriv_binary {s : List Int} (hs : Bin s) : Bin (binaryDerivative s) := Bien.bd_bin hs
+
+/-- The cyclic derivative of a binary string is binary. -/
+theorem cyclic_binary {s : List Int} (hs : Bin s) : Bin (cyclicBinaryDerivative s) := Bien.cbd_bin hs
+
+/-! ## 2. Exact invariances of the derivatives -/
+
+/-- Complementing the string does not change its derivative. -/
+theorem deriv_complement (s : List Int) : binaryDerivative (compl s) = binaryDerivative s := Bien.bd_compl s
+
+/-- Complementing the string does not change its cyclic derivative. -/
+theorem cyclic_complement (s : List Int) : cyclicBinaryDerivative (compl s) = cyclicBinaryDerivative s :=
+  Bien.cbd_compl s
+
+/-- The derivative of the reversed string is the reversed derivative. -/
+theorem deriv_reverse (s : List Int) : binaryDerivative s.reverse = (binaryDerivative s).reverse :=
+  Bien.bd_reverse s
+
+/-- The cyclic derivative of the reversed string is the reversed cyclic derivative rotated by one place. -/
+theorem cyclic_reverse (s : List Int) :
+    cyclicBinaryDerivative s.reverse = (cyclicBinaryDerivative s).reverse.rotate 1 := Bien.cbd_reverse s
+
+/-- The cyclic derivative commutes with rotation. -/
+theorem cyclic_rotate (s : List Int) (j : Nat) :
+    cyclicBinaryDerivative (s.rotate j) = (cyclicBinaryDerivative s).rotate j := Bien.cbd_rotate s j
+
+/-- `k`-fold derivatives of the reversed string are the reversed `k`-fold derivatives. -/
+theorem deriv_iterate_reverse (s : List Int) (k : Nat) :
+    binaryDerivative^[k] s.reverse = (binaryDerivative^[k] s).reverse := Bien.bd_iterate_reverse s k
+
+/-- `k`-fold cyclic derivatives commute with rotation. -/
+theorem cyclic_iterate_rotate (s : List Int) (k j : Nat) :
+    cyclicBinaryDerivative^[k] (s.rotate j) = (cyclicBinaryDerivative^[k] s).rotate j :=
+  Bien.cbd_iterate_rotate s k j
+
+/-- The `k`-fold cyclic derivative of the reversed string is the reversed `k`-fold cyclic derivative rotated by
+    `k` places; in particular it has the same symbol counts. -/
+theorem cyclic_iterate_reverse (s : List Int) (k : Nat) :
+    cyclicBinaryDerivative^[k] s.reverse = (cyclicBinaryDerivative^[k] s).reverse.rotate k :=
+  Bien.cbd_iterate_reverse s k
+
+/-! ## 3. Shannon entropy over the reals -/
+
+/-- The model's entropy is `H = - ∑ p log2 p` over the symbols `a` that occur, `p = count a / length`. -/
+theorem shannon_def (xs : List Int) :
+    shannon realNum xs =
+      -∑ a ∈ xs.toFinset, ((xs.count a : ℝ) / (xs.length : ℝ)) * Real.logb 2 ((xs.count a : ℝ) / (xs.length : ℝ)) :=
+  Bien.shannon_eq xs
+
+/-- The entropy depends only on the multiset of symbols, not on their order. -/
+theorem shannon_perm {xs ys : List Int} (h : xs.Perm ys) : shannon realNum xs = shannon realNum ys :=
+  Bien.shannon_perm h
+
+/-- An injective relabelling of the symbols (for instance complementing) keeps the entropy. -/
+theorem shannon_relabel {f : Int → Int} (hf : Function.Injective f) (xs : List Int) :
+    shannon realNum (xs.map f) = shannon realNum xs := Bien.shannon_relabel hf xs
+
+/-- The entropy of a non-empty binary string is the binary entropy function, in bits, of the frequency of `0`. -/
+theorem shannon_binary_eq {s : List Int} (hs : Bin s) (hne : s ≠ []) :
+    shannon realNum s = Real.binEntropy ((s.count 0 : ℝ) / (s.length : ℝ)) / Real.log 2 :=
+  Bien.shannon_bin_eq hs hne
+
+/-- The entropy of a binary string lies between `0` and `1` bit. -/
+theorem shannon_binary_le_one {s : List Int} (hs : Bin s) : 0 ≤ shannon realNum s ∧ shannon realNum s ≤ 1 :=
+  Bien.shannon_binary_le_one hs
+
+/-! ## 4. Croll's definitions: the loops in closed form
+
+`D^[k]` is the `k`-fold derivative (`Nat.iterate`), `n = s.length`, `k` ranges over `0 .. n-2`. -/
+
+/-- `bien` is the weighted sum of the entropies of the successive derivatives with weights `2^k`, divided by
+    `2^(n-1) - 1`. -/
+theorem bien_def (s : List Int) :
+    bien realNum s =
+      (∑ k ∈ range (s.length - 1), (2 : ℝ) ^ k * shannon realNum (binaryDerivative^[k] s))
+        / ((2 : ℝ) ^ (s.length - 1) - 1) := by
+  rw [Bien.bien_eq_wmean, Bien.wmean, Bien.sum_two_pow]
+
+/-- The normaliser `2^(n-1) - 1` of `bien` is the sum of its weights, so `bien` is a weighted mean. -/
+theorem bien_weights (m : Nat) : ∑ k ∈ range m, (2 : ℝ) ^ k = 2 ^ m - 1 := Bien.sum_two_pow m
+
+/-- `tbien` is the weighted mean of the entropies of the successive derivatives with weights `log2 (k + 2)`. -/
+theorem tbien_def (s : List Int) :
+    tbien realNum s =
+      (∑ k ∈ range (s.length - 1), Real.logb 2 ((k : ℝ) + 2) * shannon realNum (binaryDerivative^[k] s))
+        / ∑ k ∈ range (s.length - 1), Real.logb 2 ((k : ℝ) + 2) := Bien.tbien_eq_wmean s
+
+/-- `ktbien` is the weighted mean of the entropies of the successive cyclic derivatives with weights
+    `log2 (k + 2)`. -/
+theorem ktbien_def (s : List Int) :
+    ktbien realNum s =
+      (∑ k ∈ range (s.length - 1), Real.logb 2 ((k : ℝ) + 2) * shannon realNum (cyclicBinaryDerivative^[k] s))
+        / ∑ k ∈ range (s.length - 1), Real.logb 2 ((k : ℝ) + 2) := Bien.ktbien_eq_wmean s
+
+/-- For strings of length `≥ 2` the normaliser of `bien` is positive (no division by zero). -/
+theorem bien_normaliser_pos {s : List Int} (h : 2 ≤ s.length) : 0 < (2 : ℝ) ^ (s.length - 1) - 1 := by
+  have : (1 : ℝ) < 2 ^ (s.length - 1) := one_lt_pow₀ (by norm_num) (by omega)
+  linarith
+
+/-- Every weight `log2 (k + 2)` is positive (indeed `≥ 1`). -/
+theorem log_weight_pos (k : Nat) : 0 < Real.logb 2 ((k : ℝ) + 2) := Bien.wlog_pos k
+
+/-- For strings of length `≥ 2` the normaliser of `tbien` and `ktbien` is positive (no division by zero). -/
+theorem tbien_normaliser_pos {s : List Int} (h : 2 ≤ s.length) :
+    0 < ∑ k ∈ range (s.length - 1), Real.logb 2 ((k : ℝ) + 2) :=
+  Finset.sum_pos (fun k _ => log_weight_pos k) (Finset.nonempty_range_iff.2 (by omega))
+
+/-! ## 5. Range -/
+
+/-- `bien` of a binary string lies in `[0, 1]`. -/
+theorem bien_range {s : List Int} (hs : Bin s) (_ : 2 ≤ s.length) : 0 ≤ bien realNum s ∧ bien realNum s ≤ 1 := by
+  rw [Bien.bien_eq_wmean]
+  exact Bien.wmean_range (fun k => by positivity)
+    (fun k => Bien.shannon_binary_le_one (Bien.iterate_bin (fun _ => Bien.bd_bin) hs k))
+
+/-- `tbien` of a binary string lies in `[0, 1]`. -/
+theorem tbien_range {s : List Int} (hs : Bin s) (_ : 2 ≤ s.length) : 0 ≤ tbien realNum s ∧ tbien realNum s ≤ 1 := by
+  rw [Bien.tbien_eq_wmean]
+  exact Bien.wmean_range (fun k => (Bien.wlog_pos k).le)
+    (fun k => Bien.shannon_binary_le_one (Bien.iterate_bin (fun _ => Bien.bd_bin) hs k))
+
+/-- `ktbien` of a binary string lies in `[0, 1]`. -/
+theorem ktbien_range {s : List Int} (hs : Bin s) (_ : 2 ≤ s.length) :
+    0 ≤ ktbien realNum s ∧ ktbien realNum s ≤ 1 := by
+  rw [Bien.ktbien_eq_wmean]
+  exact Bien.wmean_range (fun k => (Bien.wlog_pos k).le)
+    (fun k => Bien.shannon_binary_le_one (Bien.iterate_bin (fun _ => Bien.cbd_bin) hs k))
+
+/-! ## 6. Invariances -/
+
+/-- `bien` is unchanged by complementing the string. -/
+theorem bien_complement {s : List Int} (_ : Bin s) (_ : 2 ≤ s.length) : bien realNum (compl s) = bien realNum s := by
+  rw [Bien.bien_eq_wmean, Bien.bien_eq_wmean]; exact Bien.wmean_compl Bien.bd_compl _ s
+
+/-- `tbien` is unchanged by complementing the string. -/
+theorem tbien_complement {s : List Int} (_ : Bin s) (_ : 2 ≤ s.length) :
+    tbien realNum (compl s) = tbien realNum s := by
+  rw [Bien.tbien_eq_wmean, Bien.tbien_eq_wmean]; exact Bien.wmean_compl Bien.bd_compl _ s
+
+/-- `ktbien` is unchanged by complementing the string. -/
+theorem ktbien_complement {s : List Int} (_ : Bin s) (_ : 2 ≤ s.length) :
+    ktbien realNum (compl s) = ktbien realNum s := by
+  rw [Bien.ktbien_eq_wmean, Bien.ktbien_eq_wmean]; exact Bien.wmean_compl Bien.cbd_compl _ s
+
+/-- `bien` is unchanged by reversing the string. -/
+theorem bien_reverse {s : List Int} (_ : Bin s) (_ : 2 ≤ s.length) : bien realNum s.reverse = bien realNum s := by
+  rw [Bien.bien_eq_wmean, Bien.bien_eq_wmean]
+  exact Bien.wmean_congr (by simp) fun k => by rw [Bien.bd_iterate_reverse, Bien.shannon_reverse]
+
+/-- `tbien` is unchanged by reversing the string. -/
+theorem tbien_reverse {s : List Int} (_ : Bin s) (_ : 2 ≤ s.length) : tbien realNum s.reverse = tbien realNum s := by
+  rw [Bien.tbien_eq_wmean, Bien.tbien_eq_wmean]
+  exact Bien.wmean_congr (by simp) fun k => by rw [Bien.bd_iterate_reverse, Bien.shannon_reverse]
+
+/-- `ktbien` is unchanged by reversing the string. -/
+theorem ktbien_reverse {s : List Int} (_ : Bin s) (_ : 2 ≤ s.length) :
+    ktbien realNum s.reverse = ktbien realNum s := by
+  rw [Bien.ktbien_eq_wmean, Bien.ktbien_eq_wmean]
+  exact Bien.wmean_congr (by simp) fun k => by
+    rw [Bien.cbd_iterate_reverse, Bien.shannon_rotate, Bien.shannon_reverse]
+
+/-- `ktbien` is unchanged by rotating the string (by any number `j` of places). -/
+theorem ktbien_rotate {s : List Int} (_ : Bin s) (_ : 2 ≤ s.length) (j : Nat) :
+    ktbien realNum (s.rotate j) = ktbien realNum s := by
+  rw [Bien.ktbien_eq_wmean, Bien.ktbien_eq_wmean]
+  exact Bien.wmean_congr (by simp) fun k => by rw [Bien.cbd_iterate_rotate, Bien.shannon_rotate]
+
+/-! ## Concrete instances (non-vacuity) -/
+
+example : Bin [0, 1, 1, 0, 1] := by unfold Bin; decide
+example : binaryDerivative [0, 1, 1, 0, 1] = [1, 0, 1, 1] := by decide
+example : cyclicBinaryDerivative [0, 1, 1, 0, 1] = [1, 0, 1, 1, 1] := by decide
+example : compl [0, 1, 1, 0, 1] = [1, 0, 0, 1, 0] := by decide
+example : cyclicBinaryDerivative [0, 1, 1, 0, 1].reverse = (cyclicBinaryDerivative [0, 1, 1, 0, 1]).reverse.rotate 1 := by
+  decide
+
+example : ktbien realNum ([0, 1, 1, 0, 1].rotate 2) = ktbien realNum [0, 1, 1, 0, 1] :=
+  ktbien_rotate (by unfold Bin; decide) (by decide) 2
+example : tbien realNum [1, 0, 1, 1, 0] = tbien realNum [0, 1, 1, 0, 1] :=
+  tbien_reverse (s := [0, 1, 1, 0, 1]) (by unfold Bin; decide) (by decide)
+example : bien realNum [1, 0, 0, 1, 0] = bien realNum [0, 1, 1, 0, 1] :=
+  bien_complement (s := [0, 1, 1, 0, 1]) (by unfold Bin; decide) (by decide)
+
+/-- One fair bit. -/
+theorem shannon_01 : shannon realNum [0, 1] = 1 := by
+  rw [shannon_binary_eq (by unfold Bin; decide) (by simp)]
+  have : ((([0, 1] : List Int).count 0 : ℕ) : ℝ) / ((([0, 1] : List Int).length : ℕ) : ℝ) = 2⁻¹ := by
+    have : ([0, 1] : List Int).count 0 = 1 := by decide
+    rw [this]; norm_num
+  rw [this, Real.binEntropy_two_inv, div_self (Real.log_pos (by norm_num)).ne']
+
+/-- A constant string has entropy zero. -/
+theorem shannon_00 : shannon realNum [0, 0] = 0 := by
+  rw [shannon_binary_eq (by unfold Bin; decide) (by simp)]
+  have : ((([0, 0] : List Int).count 0 : ℕ) : ℝ) / ((([0, 0] : List Int).length : ℕ) : ℝ) = 1 := by
+    have : ([0, 0] : List Int).count 0 = 2 := by decide
+    rw [this]; norm_num
+  rw [this, Real.binEntropy_one, zero_div]
+
+/-- The bounds of `bien_range` are attained: `bien "01" = 1` and `bien "00" = 0`. -/
+example : bien realNum [0, 1] = 1 := by
+  rw [bien_def]; simp [shannon_01]; norm_num
+example : bien realNum [0, 0] = 0 := by
+  rw [bien_def]; simp [shannon_00]
+example : ktbien realNum [0, 1] = 1 := by
+  rw [ktbien_def]; simp [shannon_01]
+example : tbien realNum [0, 0] = 0 := by
+  rw [tbien_def]; simp [shannon_00]
+
 end Cpl.C18
